@@ -1060,6 +1060,34 @@ func runC05(c *Ctx) {
 	c.Nontrivial = nTasks >= 2 && len(w.nodes) >= 3
 	c.Sim()
 
+	if nTasks == 1 && !r.Failed() {
+		// a sugared logger whose core is widened after the fact: WithOptions with
+		// WrapCore puts a tee of the old core and a new, more verbose destination
+		// in its place. Whatever the old core enables, the new branch receives
+		// every entry its own level enables, through every sugared family.
+		xcore, xlogs := observer.New(zapcore.DebugLevel)
+		sx := lg.Sugar().WithOptions(zap.WrapCore(func(old zapcore.Core) zapcore.Core { return zapcore.NewTee(old, xcore) }))
+		n := 0
+		for _, l := range []zapcore.Level{zapcore.DebugLevel, zapcore.InfoLevel, zapcore.WarnLevel, zapcore.ErrorLevel} {
+			sx.Log(l, "widened")
+			sx.Logf(l, "%s", "widened")
+			sx.Logw(l, "widened", "k", 1)
+			sx.Logln(l, "widened")
+			n += 4
+		}
+		sx.Debug("widened")
+		sx.Infow("widened", "k", 1)
+		n += 2
+		if got := xlogs.Len(); got != n {
+			c.Fail("C05: an entry did not reach a destination whose whole path enables its level", "a branch added by SugaredLogger.WithOptions(WrapCore(tee(old, new))) at Debug level received %d of %d sugared entries at Debug..Error; tree %s", got, n, w.describe(root))
+			return
+		}
+		if !sx.Desugar().Core().Enabled(zapcore.DebugLevel) || sx.Level() > zapcore.DebugLevel {
+			c.Fail("C05: reported levels disagree with delivery", "after widening to Debug: Core().Enabled(debug)=%v, SugaredLogger.Level()=%s", sx.Desugar().Core().Enabled(zapcore.DebugLevel), sx.Level())
+			return
+		}
+		r.Probe("sugared logger widened by WithOptions(WrapCore)")
+	}
 	if nTasks > 1 {
 		// interval rule: for each log call the valuations possibly in force
 		// between its invocation and its return
